@@ -35,6 +35,7 @@ use crate::pool_init_handlers::{Context, Program, Interface, Sysvar, TokenInterf
 //@ fn instructions/v2/initialize_reward.rs handler -> r as=initialize_reward_v2_handler canary
     requires constraints_InitializeRewardV2(old(ctx.accounts)),
     ensures
+        r is Ok ==> old(ctx.accounts).reward_token_badge.skey() == crate::anchor_shim::pda_of(seq![crate::anchor_shim::Seed::Lit(0x746f6b656e5f6261646765int), crate::anchor_shim::Seed::Key(old(ctx.accounts).whirlpool.data.whirlpools_config), crate::anchor_shim::Seed::Key(old(ctx.accounts).reward_mint.skey())]), //# C19
         r is Ok ==> old(ctx.accounts).reward_authority.skey() == old(ctx.accounts).whirlpool.data.reward_authority_spec() && old(ctx.accounts).reward_authority.info.is_signer, //# C04
         r is Ok ==> mint_supported(old(ctx.accounts).reward_mint.data, badge_ok(old(ctx.accounts).reward_token_badge, old(ctx.accounts).whirlpool.data.whirlpools_config, old(ctx.accounts).reward_mint.data.k)), //# C19
         r is Ok ==> old(ctx.accounts).reward_token_program.skey() == old(ctx.accounts).reward_mint.data.owner_program, //# C15
